@@ -189,7 +189,7 @@ void harness(void)
   if (in_stopauto) { exp_stop = 0; for (r = 0; r < CF_R; r++) if (rec_selected(r) && in_rstart[r] + in_offset + in_rlen[r] / G - 1 > exp_stop) exp_stop = in_rstart[r] + in_offset + in_rlen[r] / G - 1; }
   CHECK(StartAdr == exp_start, "auto start = lowest used address of the selected records");
   CHECK(StopAdr == exp_stop, "auto stop = highest used address of the selected records");
-  ASSUME((unsigned long long)(StopAdr - StartAdr + 1) * G <= 64);   /* bound on the image size (4 chunks of the shrunk buffer) */
+  ASSUME(((unsigned long long)StopAdr - (unsigned long long)StartAdr + 1) * G <= 64);   /* bound on the image size (4 chunks of the shrunk buffer) */
   if (in_startauto || in_stopauto) CHECK(MaxGran == G, "granularity of the selected records measured");
   else MaxGran = G;   /* explicit range: see known finding p2bin_maxgran */
   ASSUME(((unsigned long long)StartAdr * G) % div == 0);        /* lane selection defined for an aligned window start */
